@@ -76,6 +76,13 @@ Example C10_trans_run_fb :
   go_multiboot_GetFramebufferInfo mld 100 (mkw [] ex_mem) (l_info ex_layout) = GOk (mkw [] ex_mem, l_info ex_layout + 0xe0).
 Proof. vm_compute. reflexivity. Qed.
 
+(** RGBColorInfo on the example's framebuffer tag (type 1 = RGB): the colour block follows the 24 bytes of fields;
+    on the raw block below (type byte 6) it is nil *)
+Example C10_trans_run_rgb :
+  go_multiboot_FramebufferInfo_RGBColorInfo mld (mkw [] ex_mem) (l_info ex_layout + 0xe0) = GOk (mkw [] ex_mem, l_info ex_layout + 0xe0 + 24) /\
+  read_fb ex_mem (l_info ex_layout + 0xe0) = Ok (mkFb 0xfd000000 4096 1024 768 32 1 (Some [16; 8; 8; 8; 0; 8])).
+Proof. vm_compute. auto. Qed.
+
 (** VisitElfSections: the empty section is skipped, names come from the string table (".shstrtab", ".text"), the
     flags 0x10000000006 are cut to 32 bits; the memory is untouched *)
 Example C10_trans_run_elf :
